@@ -108,6 +108,26 @@ def expr_features(toks):
                 f.add("not-before-and-or")
         if len(toks) > 2:
             f.add("leading-not")
+    # "/" between two parenthesised groups that are each an AND / OR: both operands are LAND / LOR results (INTEGER in BASIC09)
+    for i, t in enumerate(toks):
+        if t != "/" or i == 0 or i + 1 >= n or toks[i - 1] != ")" or toks[i + 1] != "(":
+            continue
+
+        def group(start, step):
+            depth, j, inner = 0, start, []
+            while 0 <= j < n:
+                if toks[j] == ("(" if step > 0 else ")"):
+                    depth += 1
+                elif toks[j] == (")" if step > 0 else "("):
+                    depth -= 1
+                    if depth == 0:
+                        break
+                elif depth == 1:
+                    inner.append(toks[j])
+                j += step
+            return inner
+        if any(x in ("AND", "OR") for x in group(i - 1, -1)) and any(x in ("AND", "OR") for x in group(i + 1, 1)):
+            f.add("division-of-two-logic-groups")
     # ^ chains / pow with negative base etc. are value-level, no feature
     return f
 
